@@ -1367,6 +1367,15 @@ impl Server {
     /// Perform any necessary cleanup before putting the server
     /// connection back in the pool
     pub async fn checkin_cleanup(&mut self) -> Result<(), Error> {
+        // Client left in the middle of a COPY. The server would take the statements below
+        // for an aborted COPY (and not execute them) while their replies make this
+        // connection look clean, so there is no safe way to reset it: close it.
+        if self.in_copy_mode() {
+            warn!(target: "pgcat::server::cleanup", "Server returned while still in copy-mode, closing it");
+            self.mark_bad("returned to the pool in copy-mode");
+            return Ok(());
+        }
+
         // Client disconnected with an open transaction on the server connection.
         // Pgbouncer behavior is to close the server connection but that can cause
         // server connection thrashing if clients repeatedly do this.
@@ -1399,10 +1408,6 @@ impl Server {
 
             self.query(&reset_string).await?;
             self.cleanup_state.reset();
-        }
-
-        if self.in_copy_mode() {
-            warn!(target: "pgcat::server::cleanup", "Server returned while still in copy-mode");
         }
 
         Ok(())
